@@ -91,6 +91,11 @@ type OutFlat struct {
 	dig.Out
 	F0 []*TA `group:"g,flatten"`
 }
+type OutTwoG struct {
+	dig.Out
+	F0 *TA `group:"g"`
+	F1 *TA `group:"g"`
+}
 type OutGroupSlice struct {
 	dig.Out
 	F0 []*TA `group:"g"`
@@ -147,7 +152,8 @@ func DrAB(b *TB) *TA { return call("DrAB", b)[0].Interface().(*TA) } // A needs 
 func DrBC(c *TC) *TB { return call("DrBC", c)[0].Interface().(*TB) } // B needs C
 func DrCA(a *TA) *TC { return call("DrCA", a)[0].Interface().(*TC) } // C needs A
 func DB0() *TB       { return call("DB0")[0].Interface().(*TB) }
-func DGb(b *TB) *TA  { return call("DGb", b)[0].Interface().(*TA) } // group member that needs B
+func DG22() OutTwoG  { return call("DG22")[0].Interface().(OutTwoG) } // two members of g
+func DGb(b *TB) *TA  { return call("DGb", b)[0].Interface().(*TA) }   // group member that needs B
 
 func init() {
 	decl("DA", DA, F("", "", "A"))
@@ -191,6 +197,7 @@ func init() {
 	decl("DrCA", DrCA, F("", "A", "C"))
 	decl("DB0", DB0, F("", "", "B"))
 	decl("DGb", DGb, F("", "B", "A", Group("g")))
+	decl("DG22", DG22, F("", "", "{A+g;A+g}"))
 }
 
 // D returns (a copy of) the spec of a pool function, optionally modified.
